@@ -122,6 +122,11 @@ def explain(case, i, m):
         return f"{kind} provider: implementation {json.dumps(a)[:300]} vs proved model {json.dumps(b)[:300]}"
     what = []
     if isinstance(a, dict) and isinstance(b, dict):
+        shared = sorted({x[0] for x in (a.get("active") or []) + (a.get("book") or []) if "|" in str(x[0])} |
+                        {x[1] for x in (a.get("calls") or []) if "|" in str(x[1])})
+        if shared:
+            what.append("different configured sources share one source id / state key (" + ", ".join(shared)
+                        + "): their rule sets replace and delete each other")
         if a.get("panic") and not b.get("panic"):
             what.append("the notification handler panicked")
         if vlib.canon(a.get("calls")) != vlib.canon(b.get("calls")):
@@ -189,6 +194,14 @@ def tally(cases, model):
     for c, m in zip(cases, model):
         r = vlib.res_of(m)
         by_kind[c["kind"]] = by_kind.get(c["kind"], 0) + 1
+        if len(c.get("buckets", [])) >= 2:
+            outcomes["config:blob 2+ buckets"] = outcomes.get("config:blob 2+ buckets", 0) + 1
+            pairs = [(b.get("name"), b.get("prefix", "")) for b in c["buckets"]]
+            if len(set(pairs)) < len(pairs):
+                outcomes["config:blob buckets differing in the url query only"] = \
+                    outcomes.get("config:blob buckets differing in the url query only", 0) + 1
+        if c.get("endpoints"):
+            outcomes["config:http endpoints sharing the path"] = outcomes.get("config:http endpoints sharing the path", 0) + 1
         if not usable(r):
             continue
         kinds = set()
@@ -266,7 +279,7 @@ def run(R):
         "evaluations": len(cases), "distinct_nontrivial": len(nontrivial),
         "rule": "random histories of rule-set sources per provider: file_system (notifications with any op bits handed "
                 "to ruleSetsChanged over real files, and real file operations observed through fsnotify), "
-                "http_endpoint (httptest server: valid yaml/json, empty, unparsable, unknown content type, 4xx/5xx, "
+                "http_endpoint (1-3 endpoints, also same path on two hosts or differing in the query only; httptest servers: valid yaml/json, empty, unparsable, unknown content type, 4xx/5xx, "
                 "closed connection, cancelled poll), cloud_blob (S3 fake: blobs appearing/changing/emptied/broken/"
                 "removed, unreachable bucket, single-blob urls), kubernetes (real informer over a scripted "
                 "list/watch: add/modify/delete, status-only updates, class changes, broken watch with missed "
